@@ -3,11 +3,13 @@ package harness
 // C19 Coin selection returns only valid selections and coin-set totals never drift.
 
 import (
+	"bytes"
 	"fmt"
 	"sort"
 	"testing"
 
 	"github.com/gcash/bchd/chaincfg/chainhash"
+	"github.com/gcash/bchd/wire"
 	"github.com/gcash/bchutil"
 	"github.com/gcash/bchutil/coinset"
 	"pgregory.net/rapid"
@@ -398,6 +400,80 @@ var kC19Hist = register(&Kind[c19Hist]{
 	Eval: evalC19Hist,
 })
 
+// ---- kind: SimpleCoin, the library's own Coin ---------------------------------------------------
+
+type c19Simple struct {
+	Outs  []coinSpec `json:"outputs"` // value and confirmations per output of one transaction
+	Picks []int      `json:"picks"`   // outputs (by index) offered as coins, in this order
+}
+
+func evalC19Simple(c c19Simple, o *Obs) error {
+	if len(c.Outs) < 1 || len(c.Outs) > 300 || len(c.Picks) > 8 {
+		return hbug("bad simple-coin case")
+	}
+	msg := wire.NewMsgTx(2)
+	msg.AddTxIn(wire.NewTxIn(wire.NewOutPoint(&chainhash.Hash{1}, 0), []byte{0x51}))
+	for i, s := range c.Outs {
+		msg.AddTxOut(wire.NewTxOut(s.V, []byte{0x76, byte(i), byte(i >> 8)}, wire.TokenData{}))
+	}
+	tx := bchutil.NewTx(msg)
+	want := msg.TxHash()
+	var coins []coinset.Coin
+	var total, totalVA int64
+	for _, i := range c.Picks {
+		if i < 0 || i >= len(c.Outs) {
+			return hbug("pick")
+		}
+		sc := &coinset.SimpleCoin{Tx: tx, TxIndex: uint32(i), TxNumConfs: c.Outs[i].C}
+		if *sc.Hash() != want || sc.Index() != uint32(i) || int64(sc.Value()) != c.Outs[i].V || sc.NumConfs() != c.Outs[i].C ||
+			sc.ValueAge() != c.Outs[i].V*c.Outs[i].C || !bytes.Equal(sc.PkScript(), []byte{0x76, byte(i), byte(i >> 8)}) {
+			return fmt.Errorf("SimpleCoin for output %d (value %d, %d confirmations) of a %d-output transaction reports hash %v index %d value %d confs %d value-age %d script %x",
+				i, c.Outs[i].V, c.Outs[i].C, len(c.Outs), sc.Hash(), sc.Index(), sc.Value(), sc.NumConfs(), sc.ValueAge(), sc.PkScript())
+		}
+		coins = append(coins, sc)
+		total += c.Outs[i].V
+		totalVA += c.Outs[i].V * c.Outs[i].C
+	}
+	if len(coins) >= 2 {
+		o.NT()
+	}
+	o.Class("C19:simplecoin")
+	cs := coinset.NewCoinSet(coins)
+	if cs.Num() != len(coins) || int64(cs.TotalValue()) != total || cs.TotalValueAge() != totalVA {
+		return fmt.Errorf("coin set of SimpleCoins %v: totals (%d,%d,%d) differ from the sums over its contents (%d,%d,%d)", c.Picks,
+			cs.Num(), cs.TotalValue(), cs.TotalValueAge(), len(coins), total, totalVA)
+	}
+	built := coinset.NewMsgTxWithInputCoins(1, cs)
+	if len(built.TxIn) != len(coins) || len(built.TxOut) != 0 {
+		return fmt.Errorf("transaction built from %d SimpleCoins has %d inputs and %d outputs", len(coins), len(built.TxIn), len(built.TxOut))
+	}
+	for k, i := range c.Picks {
+		if op := built.TxIn[k].PreviousOutPoint; op.Hash != want || op.Index != uint32(i) {
+			return fmt.Errorf("input %d of the transaction built from SimpleCoins %v spends %v, want %v:%d", k, c.Picks, op, want, i)
+		}
+	}
+	return nil
+}
+
+var kC19Simple = register(&Kind[c19Simple]{
+	Prop: "C19", Name: "simplecoin", Eval: evalC19Simple,
+	Gen: func(t *rapid.T) c19Simple {
+		var c c19Simple
+		n := rapid.SampledFrom([]int{1, 2, 3, 5, 17, 255, 256, 257, 300}).Draw(t, "nouts")
+		for i := 0; i < n; i++ {
+			c.Outs = append(c.Outs, coinSpec{V: int64(i%7) * 1000, C: int64(i % 5)})
+		}
+		for k := rapid.IntRange(0, 4).Draw(t, "npicks"); k > 0; k-- {
+			i := rapid.IntRange(0, n-1).Draw(t, "pick")
+			if rapid.Bool().Draw(t, "edge") {
+				i = n - 1
+			}
+			c.Outs[i] = coinSpec{V: rapid.Int64Range(0, 2100000000000000).Draw(t, "v"), C: rapid.Int64Range(0, 1000).Draw(t, "c")}
+			c.Picks = append(c.Picks, i)
+		}
+		return c
+	}})
+
 func TestC19(t *testing.T) {
 	propTest(t, "C19", func(ev *Ev) {
 		ev.Rule("selectors: coin lists of 0..12 coins (values 0..6 and confirmations 0..4 with ties and zeros, or large), target "+
@@ -407,12 +483,13 @@ func TestC19(t *testing.T) {
 			"keys equal the top-k keys in descending order and no proper prefix qualifies; on failure (prefix selectors, "+
 			"tie-independent cases): no qualifying prefix within MaxInputs exists; min-priority: total value-age >= MinAvg x count. "+
 			"CoinSet histories (<=40 ops): Push/Pop/Shift incl. on empty sets, NewMsgTxWithInputCoins, against a list model after "+
-			"every step. Non-trivial = selection of >=2 coins, or a removal after >=2 pushes.",
+			"every step. SimpleCoin (the library's own Coin over an output of a bchutil.Tx): accessors, totals of a set of them and the transaction built from it. Non-trivial = selection of >=2 coins, or a removal after >=2 pushes.",
 			"min-priority is not required to find a selection whenever one exists (its documentation disclaims that), nor to be minimal")
 		// regression cases for the min-priority selector (see KNOWN_FINDINGS.txt)
 		kC19Sel.One(ev, c19Sel{Selector: "minpriority", Coins: []coinSpec{{0, 0}, {0, 0}, {1, 0}, {3, 1}}, Target: 0, MaxInputs: 1, MinChange: 4, MinAvg: 1})
 		kC19Sel.Run(t, ev, perShard(pick(20000, 10000000)))
 		kC19Hist.Run(t, ev, perShard(pick(3000, 1500000)))
+		kC19Simple.Run(t, ev, perShard(pick(1500, 300000)))
 		ev.requireClasses("C19:minindex-selected", "C19:minnumber-selected", "C19:maxvalueage-selected", "C19:minpriority-selected",
 			"C19:minindex-no-selection", "C19:remove-on-empty", "C19:removal-after-pushes", "C19:tx-built")
 	})
